@@ -10,6 +10,8 @@ import (
 	"strconv"
 	"strings"
 	"time"
+
+	"golang.org/x/tools/go/ssa"
 )
 
 // Property describes one checked property.
@@ -133,22 +135,16 @@ func runProps(repo, verifDir string, props []string, tier string, seed int) int 
 	}
 	configs := []buildConfig{{"linux", "amd64", ""}}
 	if tier == "thorough" {
-		multi := false
-		for _, id := range props {
-			if registry[id].MultiConfig {
-				multi = true
-			}
-		}
-		if multi {
-			configs = append(configs, buildConfig{"windows", "amd64", ""}, buildConfig{"linux", "386", ""})
-		}
+		// every rule is re-evaluated on the other build configurations the repository supports
+		// (OS-specific files such as otelcol/collector_windows.go, 32-bit int widths)
+		configs = append(configs, buildConfig{"windows", "amd64", ""}, buildConfig{"linux", "386", ""}, buildConfig{"darwin", "arm64", ""})
 	}
 	results := map[string]*Result{}
 	for _, id := range props {
 		results[id] = &Result{Prop: id, Tier: tier, Seed: seed, VerifDir: verifDir, Known: known,
 			Assumes: registry[id].Assumes, Explain: registry[id].Explain, NotDecided: registry[id].NotDecided}
 	}
-	for ci, bc := range configs {
+	for _, bc := range configs {
 		p, err := Load(LoadOpts{Repo: repo, GOOS: bc.GOOS, GOARCH: bc.GOARCH, Tags: bc.Tags})
 		if err != nil {
 			fmt.Printf("CHECK-ERROR load %s: %v\n", bc, err)
@@ -160,9 +156,6 @@ func runProps(repo, verifDir string, props []string, tier string, seed int) int 
 		}
 		for _, id := range props {
 			pr := registry[id]
-			if ci > 0 && !pr.MultiConfig {
-				continue
-			}
 			c := NewCtx(p, id, tier, bc.String())
 			if code := safeRun(pr, c); code != 0 {
 				return code
@@ -176,6 +169,12 @@ func runProps(repo, verifDir string, props []string, tier string, seed int) int 
 			r.Configs = append(r.Configs, bc.String())
 		}
 		p = nil
+		// analysis caches are keyed by the loaded program: drop them with it
+		pdataCache = map[*Prog]*pdataInfo{}
+		startupCache = map[*LockClass]map[*ssa.Function]bool{}
+		pkgFuncsCache = map[*ssa.Package][]*ssa.Function{}
+		pkgFuncsProg = nil
+		c20LastEngine = nil
 		debug.FreeOSMemory()
 	}
 	code := 0
